@@ -141,12 +141,12 @@ def seqRes (a b : Option Exc × Nat) : Option Exc × Nat :=
 /-- raw exception leaving the writer of `dump_many` and the number of completed `write` calls -/
 def consumeRes (b : Beh) (f0 : Frame) (rest : List Frame) : Option Exc × Nat :=
   seqRes (b.pre.fail, b.pre.n) (seqRes (f0.w.fail, f0.w.n)
-    (seqRes (loopExc b rest, loopWrites b rest) (seqRes (b.iterEnd, 0) (b.post.fail, b.post.n))))
+    (seqRes (loopExc b rest, loopWrites b rest) (seqRes (endOf b.iterEnd, 0) (b.post.fail, b.post.n))))
 
 theorem exec_forEach_iter (env : Env) (v : String) (body : Stmt) (st : St) :
     exec env (.forEach .iterData v body) st =
       match loopL (fun f s => exec env body { s with cur := f }) st.rest { st with rest := [] } with
-      | (.normal, st') => raiseB env.b.iterEnd st'
+      | (.normal, st') => raiseB (endOf env.b.iterEnd) st'
       | r => r := by
   rw [exec]
   rcases loopL (fun f s => exec env body { s with cur := f }) st.rest { st with rest := [] } with ⟨o, s⟩
@@ -189,7 +189,7 @@ theorem exec_consume (env : Env) (c : Callee) (args : List String) (st : St) :
         rw [hfs2]; simp [seqRes, hf0, hl, appendToks_add, Nat.add_assoc]
       | none =>
         dsimp only [outOf]
-        cases hi : env.b.iterEnd with
+        cases hi : endOf env.b.iterEnd with
         | some e =>
           refine ⟨s2, rfl, ?_, _, by rw [htr2]; simp, hm12⟩
           rw [hfs2]; simp [seqRes, hf0, hl, hi, appendToks_add, Nat.add_assoc]
